@@ -88,6 +88,10 @@ int aln_param_init(struct aln_param **aln_param,int biotype , int n_threads, int
         if(tgpe >= 0.0){
                 ap->tgpe = tgpe;
         }
+        /* the dynamic programming uses -FLT_MAX as minus infinity: huge or infinite penalties overflow it */
+        if(!(ap->gpo <= 1.0e6F) || !(ap->gpe <= 1.0e6F) || !(ap->tgpe <= 1.0e6F)){
+                ERROR_MSG("Gap penalties have to be smaller than 1e6.");
+        }
         /* LOG_MSG("%f %f %f", ap->gpo, ap->gpe, ap->tgpe); */
         *aln_param = ap;
         return OK;
